@@ -67,6 +67,9 @@ kf = ["# (iii) \\DDD in a quoted string is decoded as (d1<<16)+(d2<<8)+d3 -> cla
       case("m", O, 'a\\;b 60 IN A 1.2.3.4\n', recs=[rec(nameb([b"a;b", b"example", b"com"]), 1, 60, A("1.2.3.4"))]),
       case("m", O, 'x 60 IN NS a\\;b\n', recs=[rec(name("x.example.com"), 2, 60, "N," + nameb([b"a;b", b"example", b"com"]))]),
       ]
+kf += ["# (vi) a $ORIGIN inside an included file stays in force in the parent after the include (RFC 1035 5.1: it must not) -> class include-origin-leaks",
+       "zoneinc " + name(O) + " " + hx(b"$INCLUDE b.zone" + bytes([10]) + b"x 60 A 1.2.3.4" + bytes([10])) + " b.zone:" + hx(b"$ORIGIN other." + bytes([10]) + b"y 60 A 5.6.7.8" + bytes([10]))
+       + " " + name(O) + " " + rec(name("x.example.com"), 1, 60, A("1.2.3.4")) + "|" + rec(name("y.other"), 1, 60, A("5.6.7.8"))]
 files["known-findings.case"] = kf
 
 # ---- layouts that must load (RFC 1035 §5.3 example, with a $TTL because RFC 2308 removed the SOA-minimum default)
@@ -282,6 +285,34 @@ ps += ["# regressions of the two findings of the site review (fixed: aeb765a mne
        ta(". in DNSKEY 257 3 8 QQ==\n"), ta(". 172800 IN dnskey 257 3 8 QQ==\n"), ta(". 1h IN DNSKEY 257 3 8 QQ==\n"), ta("\"\"example.com. 172800 IN DNSKEY 257 3 8 QQ==\n"),
        zp("/", O, "$INCLUDE x\n"), f"zonep - {name(O)} {hx(b'$INCLUDE x' + bytes([10]))}"]
 files["panic-sites.case"] = ps
+
+# ---- $INCLUDE (zone.rs include branch, nesting limit), the server's file loader, RData::try_from_str, parse_ttl overflow branches
+def zi(origin, main, incs, exp_origin=None, recs=None, musterr=False):
+    fl = ",".join(f"{n}:{hx(t.encode())}" for n, t in incs) or "-"
+    l = f"zoneinc {name(origin)} {hx(main.encode())} {fl}"
+    if musterr: return l + f" {name(origin)} !"
+    if recs is not None: l += f" {name(exp_origin or origin)} " + "|".join(recs)
+    return l
+def zf(origin, text): return f"zonefile {name(origin)} {hx(text.encode())}"
+def rd(ty, text): return f"rdata {ty} {hx(text.encode())}"
+XA = lambda n, ip: rec(name(n), 1, 60, A(ip))
+inc = ["# $INCLUDE inserts the named file; relative names in it and after it use the parent's origin",
+       zi(O, "a 60 A 1.1.1.1\n$INCLUDE b.zone\nc 60 A 3.3.3.3\n", [("b.zone", "b 60 A 2.2.2.2\n")], recs=[XA("a.example.com", "1.1.1.1"), XA("b.example.com", "2.2.2.2"), XA("c.example.com", "3.3.3.3")]),
+       zi(O, "$INCLUDE b.zone ; comment\n", [("b.zone", "b 60 A 2.2.2.2\n$INCLUDE c.zone\n"), ("c.zone", "c 60 A 3.3.3.3")], recs=[XA("b.example.com", "2.2.2.2"), XA("c.example.com", "3.3.3.3")]),
+       zi(O, "$INCLUDE b.zone\n$INCLUDE b.zone\n", [("b.zone", "b 60 A 2.2.2.2\n")], recs=[XA("b.example.com", "2.2.2.2")]),
+       zi(O, "$INCLUDE b.zone", [("b.zone", "b 60 A 2.2.2.2")]), zi(O, "$INCLUDE b.zone x.\n", [("b.zone", "b 60 A 2.2.2.2\n")]), zi(O, "$INCLUDE nofile.zone\n", []), zi(O, "$INCLUDE\n", []), zi(O, "$INCLUDE b.zone\n", [("b.zone", "b 60 A (")]),
+       "# nesting without end: the file includes itself / a cycle / a chain beyond the limit of 256 -> an error, not a hang or a stack overflow",
+       zi(O, "x 60 A 1.2.3.4\n$INCLUDE main.zone\n", [], musterr=True), zi(O, "$INCLUDE b.zone\n", [("b.zone", "$INCLUDE main.zone\n")], musterr=True),
+       "# the server's file loader: SOA at the origin, class IN; a missing SOA, class CH, CNAME next to other data are refused by the store",
+       zf(O, "@ 3600 SOA ns adm 1 2 3 4 5\n@ 60 NS ns\nns 60 A 1.2.3.4\nwww 60 CNAME ns\n"), zf(O, "ns 60 A 1.2.3.4\n"), zf(O, "@ 3600 SOA ns adm 1 2 3 4 5\nx 60 CH A 1.2.3.4\n"),
+       zf(O, "@ 3600 SOA ns adm 1 2 3 4 5\nx 60 CNAME y\nx 60 A 1.2.3.4\n"), zf(O, "@ 3600 SOA ns adm 1 2 3 4 5\nx 60 A (\n"), zf(O, "$ORIGIN other.\n@ 3600 SOA ns adm 1 2 3 4 5\n"), zf(O, ""),
+       zf(O, "@ 3600 SOA ns adm 1 2 3 4 5\nout.side. 60 A 1.2.3.4\nx 60 A 1.1.1.1\nX 70 A 1.1.1.1\n"),
+       "# RData::try_from_str: the lexer and from_tokens without the line machine",
+       rd("A", "1.2.3.4"), rd("A", "( 1.2.3.4 ) ; c\n"), rd("TXT", '"a b" c'), rd("MX", "10 mail"), rd("SOA", "a. b. 1 2 3 4 5"), rd("TLSA", "3 1 1 a1b 2c3 d4"), rd("CERT", "1 2 3 QUJD REVG"), rd("HTTPS", '1 . alpn="'),
+       rd("A", "@"), rd("A", "$TTL"), rd("A", "$FOO"), rd("A", '"'), rd("A", ""), rd("NULL", "\\# 0"), rd("CSYNC", "1 0 a ns"), rd("AAAA", "::1 extra"), rd("TXT", "( a"),
+       "# parse_ttl: every overflow branch (number with a unit, product, sum inside the loop, sum at the end)",
+       ] + [case("m", O, f"a {t} A 1.2.3.4\n") for t in ["4294967295", "4294967296", "7101w", "7102w", "4294967296s", "49710d6h28m15s", "49710d6h28m16s", "4294967295s1", "4294967294s1", "1w4294362495", "1w4294362496", "99999999999w", "4294967295w0", "0w", "1h1", "s1", "1ww"]]
+files["entry-points.case"] = inc
 
 for fn, lines in files.items():
     with open(os.path.join(HERE, fn), "w") as f:
